@@ -88,6 +88,13 @@ pub fn generate(g: &mut Gen, thorough: bool) {
         }
         let gi: Vec<[f64; 4]> = (0..6).map(|_| [g.rng.uniform(-70.0, 70.0), g.rng.uniform(-179.0, 179.0), g.rng.uniform(-70.0, 70.0), g.rng.uniform(-179.0, 179.0)]).collect();
         g.push(op_line("default", &[], &[], &format!("geodesic ellps={ellps}"), "apply", "I", &data_of(&gi)), "model-geodesic", true);
+        // radii of curvature: the operator against the ellipsoid's meridian and prime vertical radii (Euler's
+        // formula at any azimuth, not only along the meridian and the prime vertical)
+        let deg: Vec<[f64; 4]> = (0..8).map(|i| [if i == 0 { 0.0 } else { g.rng.uniform(-89.0, 89.0) }, if i < 2 { 45.0 } else { g.rng.uniform(-180.0, 180.0) }, 0.0, 0.0]).collect();
+        for kind in ["prime", "meridian", "gaussian", "mean", "azimuthal"] {
+            g.push(format!("S_C14	curv	{ellps}	{kind}	{}", data_of(&deg)), "oracle-curvature-operator", true);
+            g.push(op_line("default", &[], &[], &format!("curvature {kind} ellps={ellps}"), "apply", "F", &data_of(&deg)), "model-curvature", true);
+        }
         let _ = fbits(0.0);
     }
 }
